@@ -37,7 +37,7 @@ class Inp(BaseModel):
 UP_A = Upload(filename="a.txt", content=io.BytesIO(b"a"), content_type="text/plain")
 UP_B = Upload(filename="b.bin", content=io.BytesIO(b"b"), content_type="application/octet-stream")
 
-LEAF_N = 8
+LEAF_N = 10
 MODEL_IN_DICT = []  # set by value() when a generated model sits directly inside a plain dict
 
 
@@ -57,6 +57,12 @@ def leaf(k: int):
         return Inp(camelCase=2), {"camelCase": 2}, []
     if k == 6:
         return Inp(opt=None, inner=Inner(file=UP_A)), {"opt": None, "inner": {"file": None}}, [(UP_A, ".inner.file")]
+    if k == 8:
+        import datetime
+
+        return datetime.datetime(2020, 1, 2, 3, 4, 5), "2020-01-02T03:04:05", []
+    if k == 9:
+        return [UP_B, [UP_A, 3]], [None, [None, 3]], [(UP_B, ".0"), (UP_A, ".1.0")]
     return "s", "s", []
 
 
@@ -317,7 +323,7 @@ def parts_source() -> str:
         out.append(f"def check_{name}(a_kind: int, a0: int, a1: int, an: int, b_sel: int) -> bool:\n"
                    f"    \"\"\"\n    post: _\n    \"\"\"\n    return _check({ci}, a_kind, a0, a1, an, b_sel, 0)\n")
         out.append(f"def check_kwargs_{name}(a_kind: int, kw_sel: int) -> bool:\n"
-                   f"    \"\"\"\n    post: _\n    \"\"\"\n    return _check({ci}, 2 if a_kind == 0 else (0 if a_kind == 1 else 8), 3, 0, 1, 0, kw_sel)\n")
+                   f"    \"\"\"\n    post: _\n    \"\"\"\n    return _check({ci}, 2 if a_kind == 0 else (0 if a_kind == 1 else {LEAF_N}), 3, 0, 1, 0, kw_sel)\n")
     return "\n".join(out)
 
 
